@@ -66,11 +66,14 @@ func libEffects(x *ssa.Call) ([]string, bool) {
 		return nil, false
 	case "encoding/binary.Write":
 		if mi, ok := x.Call.Args[0].(*ssa.MakeInterface); ok && mi.X.Type().String() == "*bytes.Buffer" {
-			return []string{"G:blen"}, true
+			return []string{"G:blen", "G:bdata"}, true
 		}
 		return nil, false
 	case "encoding/binary.Read":
 		if di, ok := x.Call.Args[2].(*ssa.MakeInterface); ok {
+			if sl, ok := di.X.Type().Underlying().(*types.Slice); ok && isByteType(sl.Elem()) {
+				return []string{"M:uint8", "G:rpos", "G:faults"}, true
+			}
 			if pt, ok := di.X.Type().Underlying().(*types.Pointer); ok {
 				if _, ok := pt.Elem().Underlying().(*types.Struct); ok {
 					return []string{structHeapPrefix(pt.Elem()), "G:rpos", "G:faults"}, true
@@ -169,13 +172,19 @@ func (f *FuncVC) libCall(st *State, x *ssa.Call, args []*Val) (*Val, bool) {
 				// every element afterwards is one of the elements before (same index map for all leaves)
 				perm := f.sc.fresh("perm")
 				f.sc.declareFun(perm, []string{"Int"}, "Int")
+				// ... and every element before is one of the elements afterwards
+				inv := f.sc.fresh("perminv")
+				f.sc.declareFun(inv, []string{"Int"}, "Int")
 				for i, hn := range names {
 					after := sel(f.heap(st, hn, arraySort(2, sorts[i])), sv.Fs[0].T)
 					after = f.sc.nameConst("sorted", arraySort(1, sorts[i]), after)
+					bef := f.sc.nameConst("unsorted", arraySort(1, sorts[i]), before[i])
 					q := f.sc.fresh("k")
 					lo, hi := sv.Fs[1].T, arith("+", sv.Fs[1].T, sv.Fs[2].T)
 					f.fact(st, fmt.Sprintf("(forall ((%s Int)) (! (=> (and (<= %s %s) (< %s %s)) (and (<= %s (%s %s)) (< (%s %s) %s) (= (select %s %s) (select %s (%s %s))))) :pattern ((select %s %s))))",
-						q, lo, q, q, hi, lo, perm, q, perm, q, hi, after, q, before[i], perm, q, after, q))
+						q, lo, q, q, hi, lo, perm, q, perm, q, hi, after, q, bef, perm, q, after, q))
+					f.fact(st, fmt.Sprintf("(forall ((%s Int)) (! (=> (and (<= %s %s) (< %s %s)) (and (<= %s (%s %s)) (< (%s %s) %s) (= (select %s %s) (select %s (%s %s))))) :pattern ((select %s %s))))",
+						q, lo, q, q, hi, lo, inv, q, inv, q, hi, bef, q, after, inv, q, bef, q))
 				}
 				return &Val{K: KTuple, Ty: resTy}, true
 			}
@@ -208,7 +217,9 @@ func (f *FuncVC) libCall(st *State, x *ssa.Call, args []*Val) (*Val, bool) {
 					bv := f.val(st, mi.X)
 					hs := "(Array Int Int)"
 					h := f.heap(st, "G:blen", hs)
-					f.setHeap(st, "G:blen", hs, store(h, bv.T, arith("+", sel(h, bv.T), num(sz))))
+					len0 := f.sc.define("blen0", "Int", sel(h, bv.T))
+					f.setHeap(st, "G:blen", hs, store(h, bv.T, arith("+", len0, num(sz))))
+					f.binaryWriteContent(st, x, bv, len0, di)
 				}
 			}
 			return f.freshTyped(st, resTy, "binwrite"), true
@@ -344,10 +355,132 @@ func binarySize(t types.Type) (int64, bool) {
 // for structs of fixed-size integer fields and integer arrays: the fields are
 // the big-endian interpretation of consecutive bytes of the reader's input, in
 // declaration order (assumed behaviour of encoding/binary, A-EXT).
+// binaryWriteContent: binary.Write(buf, BigEndian, *struct) appends the fields
+// in declaration order, big-endian, two's complement (assumed behaviour of
+// encoding/binary, A-EXT); the earlier content of the buffer is unchanged.
+func (f *FuncVC) binaryWriteContent(st *State, x *ssa.Call, bv *Val, len0 string, di *ssa.MakeInterface) {
+	ds := "(Array Int (Array Int Int))"
+	dh := f.heap(st, "G:bdata", ds)
+	old := f.sc.nameConst("bdata0", "(Array Int Int)", sel(dh, bv.T))
+	nd := f.sc.fresh("bdata")
+	f.sc.declare(nd, "(Array Int Int)")
+	f.setHeap(st, "G:bdata", ds, store(dh, bv.T, nd))
+	q := f.sc.fresh("k")
+	f.fact(st, fmt.Sprintf("(forall ((%s Int)) (! (=> (and (<= 0 %s) (< %s %s)) (= (select %s %s) (select %s %s))) :pattern ((select %s %s))))", q, q, q, len0, nd, q, old, q, nd, q))
+	pt, ok := di.X.Type().Underlying().(*types.Pointer)
+	if !ok {
+		return
+	}
+	sty, ok := pt.Elem().Underlying().(*types.Struct)
+	if !ok {
+		return
+	}
+	obj := f.val(st, di.X)
+	if obj.K != KPtr || obj.P != nil || len(obj.Fs) != 0 {
+		return
+	}
+	f.usedAssumed["encoding/binary.Write(buf, BigEndian, *struct) appends the big-endian two's complement bytes of the fields in declaration order"] = true
+	prefix := structHeapPrefix(pt.Elem())
+	off := int64(0)
+	byteOf := func(v string, n, k int64) string {
+		// byte k (0 = most significant) of the n-byte two's complement of v
+		div := new(big.Int).Exp(big.NewInt(256), big.NewInt(n-1-k), nil)
+		mod := new(big.Int).Exp(big.NewInt(256), big.NewInt(n), nil)
+		return "(mod (div (mod " + v + " " + mod.String() + ") " + div.String() + ") 256)"
+	}
+	for i := 0; i < sty.NumFields(); i++ {
+		fld := sty.Field(i)
+		n, _ := binarySize(fld.Type())
+		hn := prefix + "." + fld.Name()
+		switch u := fld.Type().Underlying().(type) {
+		case *types.Basic:
+			if u.Info()&types.IsInteger != 0 {
+				v := f.sc.define("wfld", "Int", sel(f.heap(st, hn, "(Array Int Int)"), obj.T))
+				for k := int64(0); k < n; k++ {
+					f.fact(st, eq(sel(nd, arith("+", len0, num(off+k))), byteOf(v, n, k)))
+				}
+			}
+		case *types.Array:
+			eb := basicOf(u.Elem())
+			es, _ := binarySize(u.Elem())
+			if eb != nil && eb.Info()&types.IsInteger != 0 {
+				arr := f.sc.nameConst("wfldarr", "(Array Int Int)", sel(f.heap(st, hn, "(Array Int (Array Int Int))"), obj.T))
+				if u.Len() <= 16 {
+					for e := int64(0); e < u.Len(); e++ {
+						for k := int64(0); k < es; k++ {
+							f.fact(st, eq(sel(nd, arith("+", len0, num(off+e*es+k))), byteOf(sel(arr, num(e)), es, k)))
+						}
+					}
+				}
+			}
+		}
+		off += n
+	}
+}
+
+func isByteType(t types.Type) bool {
+	b, ok := t.Underlying().(*types.Basic)
+	return ok && b.Kind() == types.Uint8
+}
+
+// binaryReadBytes models binary.Read(r, order, []byte): io.ReadFull.
+func (f *FuncVC) binaryReadBytes(st *State, x *ssa.Call, args []*Val, di *ssa.MakeInterface) (*Val, bool) {
+	rd := args[0]
+	buf := f.val(st, di.X)
+	if rd.K != KIface || buf.K != KSlice {
+		return nil, false
+	}
+	f.usedAssumed["encoding/binary.Read(r, order, []byte): io.ReadFull - fills the slice with consecutive input bytes; io.EOF iff no byte could be read, io.ErrUnexpectedEOF on a short read"] = true
+	f.oblige(st, "nil", f.srcAt(x.Pos()), not(eq(rd.Fs[0].T, "0")))
+	pay := rd.Fs[1].T
+	ih := "(Array Int Int)"
+	file := sel(f.heap(st, "G:file", "(Array Int (Array Int Int))"), pay)
+	fsize := sel(f.heap(st, "G:fsize", ih), pay)
+	rpos0 := f.sc.define("rpos0", "Int", sel(f.heap(st, "G:rpos", ih), pay))
+	faults0 := f.sc.define("faults0", "Int", sel(f.heap(st, "G:faults", ih), pay))
+	err := f.freshTyped(st, x.Type(), "binread.err")
+	okT := f.sc.define("binread.ok", "Bool", eq(err.Fs[0].T, "0"))
+	nrpos := f.sc.fresh("rpos")
+	f.sc.declare(nrpos, "Int")
+	nfaults := f.sc.fresh("faults")
+	f.sc.declare(nfaults, "Int")
+	src := f.srcAt(x.Pos())
+	f.applyMod(st, resolvedMod{kind: "ghost", heap: "G:rpos", obj: pay, text: "rpos(r)"}, src)
+	f.applyMod(st, resolvedMod{kind: "ghost", heap: "G:faults", obj: pay, text: "faults(r)"}, src)
+	f.applyMod(st, resolvedMod{kind: "elems", heap: "M:uint8", obj: buf.Fs[0].T, off: buf.Fs[1].T, ln: buf.Fs[2].T, text: "data[*]"}, src)
+	f.setHeap(st, "G:rpos", ih, store(f.heap(st, "G:rpos", ih), pay, nrpos))
+	f.setHeap(st, "G:faults", ih, store(f.heap(st, "G:faults", ih), pay, nfaults))
+	eofV := f.globalByName("io.EOF", x.Type())
+	ueofV := f.globalByName("io.ErrUnexpectedEOF", x.Type())
+	isEOF := and(eq(err.Fs[0].T, eofV.Fs[0].T), eq(err.Fs[1].T, eofV.Fs[1].T))
+	isUEOF := and(eq(err.Fs[0].T, ueofV.Fs[0].T), eq(err.Fs[1].T, ueofV.Fs[1].T))
+	sz := buf.Fs[2].T
+	f.fact(st, and(
+		cmp(">=", nfaults, faults0),
+		implies(sel(f.heap(st, "G:reliable", "(Array Int Bool)"), pay), eq(nfaults, faults0)),
+		eq(and(not(okT), not(isEOF), not(isUEOF)), cmp(">", nfaults, faults0)),
+		implies(okT, and(eq(nrpos, arith("+", rpos0, sz)), implies(cmp(">", sz, "0"), and(cmp(">=", rpos0, "0"), cmp("<=", arith("+", rpos0, sz), fsize))))),
+		implies(isEOF, and(cmp(">=", rpos0, fsize), cmp(">", sz, "0"))),
+		implies(isUEOF, cmp(">", arith("+", rpos0, sz), fsize)),
+		implies(eq(nfaults, faults0), eq(okT, or(eq(sz, "0"), and(cmp(">=", rpos0, "0"), cmp("<=", arith("+", rpos0, sz), fsize))))),
+	))
+	// contents: applyMod havocked the elements; on success they are the file bytes
+	hs := arraySort(2, "Int")
+	row := sel(f.heap(st, "M:uint8", hs), buf.Fs[0].T)
+	row = f.sc.nameConst("readbuf", "(Array Int Int)", row)
+	q := f.sc.fresh("k")
+	f.fact(st, implies(okT, fmt.Sprintf("(forall ((%s Int)) (! (=> (and (<= %s %s) (< %s (+ %s %s))) (= (select %s %s) (select %s (+ %s (- %s %s))))) :pattern ((select %s %s))))",
+		q, buf.Fs[1].T, q, q, buf.Fs[1].T, sz, row, q, file, rpos0, q, buf.Fs[1].T, row, q)))
+	return err, true
+}
+
 func (f *FuncVC) binaryRead(st *State, x *ssa.Call, args []*Val) (*Val, bool) {
 	di, ok := x.Call.Args[2].(*ssa.MakeInterface)
 	if !ok {
 		return nil, false
+	}
+	if sl, ok := di.X.Type().Underlying().(*types.Slice); ok && isByteType(sl.Elem()) {
+		return f.binaryReadBytes(st, x, args, di)
 	}
 	pt, ok := di.X.Type().Underlying().(*types.Pointer)
 	if !ok {
@@ -398,6 +531,7 @@ func (f *FuncVC) binaryRead(st *State, x *ssa.Call, args []*Val) (*Val, bool) {
 	sz := num(size)
 	f.fact(st, and(
 		cmp(">=", nfaults, faults0),
+		implies(sel(f.heap(st, "G:reliable", "(Array Int Bool)"), pay), eq(nfaults, faults0)),
 		eq(and(not(okT), not(isEOF), not(isUEOF)), cmp(">", nfaults, faults0)),
 		implies(okT, and(eq(nrpos, arith("+", rpos0, sz)), cmp(">=", rpos0, "0"), cmp("<=", arith("+", rpos0, sz), fsize))),
 		implies(isEOF, cmp(">=", rpos0, fsize)),
